@@ -2,7 +2,7 @@ def _nontrivial(rec):
     # non-trivial = the model produced a multi-field observation (a value was accepted and something was computed with it),
     # or a single accepted value; plain rejections (`err`) are counted as trivial
     m = rec["model"]
-    return m.startswith("ok ")
+    return m.startswith("ok ") or m.startswith("seq ")
 
 
 LAWS = [
@@ -43,7 +43,7 @@ CFG = {
                  "C12_key_encodings_roundtrip", "C12_hash_bech32_unfixed_refuted", "C12_hrp_checked", "C12_soft_derivation_commutes",
                  "C12_hardened_from_public_refused", "C12_bip39_root_valid", "C12_emip3_roundtrip", "C12_emip3_empty_plaintext_unfixed_refuted",
                  "C12_emip3_accepts_only_encrypt_images", "C12_emip3_rejects_modified", "C12_emip3_rejects_modified_tag",
-                 "C12_model_satisfies_judge"],
+                 "C12_model_satisfies_judge", "C12_sequences_stepwise"],
     "allowed_axioms": [],
     "compare": "exact",
     "nontrivial": _nontrivial,
@@ -55,7 +55,7 @@ CFG = {
             "message x other key, scalars at and beyond 2^255; wit = vkey / Icarus / Daedalus x Byron attributes (derivation path None/0..256 bytes, magic at CBOR "
             "width boundaries); derive = paths of depth 0..6 (all soft, all hard, mixed; CIP-1852); bip39 entropy 0..64 bytes; enc3/dec3 = valid parameters with "
             "plaintext lengths 0..200, each parameter of wrong length / malformed hex / upper case, genuine containers with each field damaged, fields reordered, "
-            "truncated, extended, other password, lengths 0..76. Each case line carries the table of external-primitive calls (made through the H12 pass-throughs) "
+            "truncated, extended, other password, lengths 0..76; pubderive = Bip32PublicKey paths from arbitrary xpubs; seq:<pattern> = SEQUENCES of such calls made one after the other in the one harness thread with deliberately related arguments (same key part / other chain code, same chain code / other key, same parent / other index, same index / other parent, repeats, wallet-like public scans interleaved with private derivation, one key material used as several key kinds, one bech32 payload under several HRPs, encrypt/decrypt under alternating passwords, salts, nonces): every step is compared with the model of that step ALONE, so any dependence on earlier calls is a disagreement. Each case line carries the table of external-primitive calls (made through the H12 pass-throughs) "
             "that instantiates the model's primitives. Non-trivial = distinct case line whose model observation starts with an accepted value.",
     "trusted_base": [
         "external crates, assumed through explicit law premises and exercised (tested) by the run: cryptoxide 0.4.4 (ed25519, pbkdf2, hmac, sha2, chacha20poly1305), "
@@ -72,6 +72,7 @@ CFG = {
         "the harness is a debug-assertion build: an extended scalar >= 2^255 would trip cryptoxide's debug assertion (it yields non-verifying signatures in release); "
         "such keys are now rejected at construction (fix 53c1673)",
         "texts in cases are valid UTF-8; wasm-bindgen glue and JsError texts are not modelled",
+        "hidden state is observable only along the call sequences the generator produces (single thread; nine relation patterns + the order of all other cases); known class excluded: C12-bit253-root-child-overflow (derivation from an accepted root with scalar bit 253 set that carries into bit 255)",
     ],
     "explanation": "PARTIAL by nature. Theorems quantify over all inputs and over every primitive instance obeying the listed laws; they establish the wrapper layer "
                    "(what is signed, layouts, offsets, length / structure / HRP checks, dispatch), not the cryptography. The correspondence run (a) compares every "
